@@ -41,7 +41,7 @@ Failing(e) ==
        Cl(P(e, "C14.noFalsePositive"), \A k \in qtp : gp[Cls[k]] > 0) \cup
        Cl(P(e, "C14.len"), e.len_post = Total(gp)) \cup
        Cl(P(e, "C19.isEmpty"), e.empty_post <=> (Total(gp) = 0)) \cup
-       Cl("C19.clone", e.twin_ok) \cup
+       Cl("C19.clone", e.twin_ok) \cup LockStepClause(e) \cup
        (IF e.op.name = "ins" THEN
            Cl(P(e, "C14.insertReportsTrue"), e.res = "ok" => e.ret = TRUE) \cup
            Cl(P(e, "C14.smallAlwaysSucceeds"), e.res = "full" => e.len_pre >= BSize)
